@@ -321,6 +321,12 @@ def tld_functions(ctx, rule):
 def run(ctx):
     from .common_url import rule_punycode
     rule_punycode(ctx, "R6")
+    # the suffix functions take their host from safe_urlsplit, which adds a scheme exactly when PROTOCOL_RE does not match
+    from .common_url import rule_safe_urlsplit
+    from .c20 import protocol_language
+    ctx.rule("R7", "parsing helper: safe_urlsplit prepends a scheme exactly when PROTOCOL_RE does not match")
+    rule_safe_urlsplit(ctx, "R7")
+    protocol_language(ctx, "R7p")
     ctx.rule("R0", "special hosts: SPECIAL_HOSTS_RE (the walk bails out on it) accepts exactly localhost / dotted quads (optional port) / colon-bearing hex literals as whole strings")
     from .common_url import rule_special_hosts
     rule_special_hosts(ctx, "R0")
@@ -341,7 +347,7 @@ MINI_RULES = [
 ]
 MINI_HOSTS = [
     # explicit rules: bare suffix / one label / two labels / spelling variants / inside a url
-    "uk", "co.uk", "a.co.uk", "b.a.co.uk", "c.b.a.co.uk", "d.c.b.a.com", "A.B.Co.UK", "Stra\u00dfe.co.uk", "\u039f\u0394\u039f\u03a3.com", "a.co.uk.", "http://b.a.co.uk:8080/x?y#z", "a.com", "com",
+    "uk", "co.uk", "a.co.uk", "b.a.co.uk", "c.b.a.co.uk", "d.c.b.a.com", ".a.co.uk", "http://.b.a.com/x", "A.B.Co.UK", "Stra\u00dfe.co.uk", "\u039f\u0394\u039f\u03a3.com", "a.co.uk.", "http://b.a.co.uk:8080/x?y#z", "a.com", "com",
     # private rule under a public one
     "github.io", "a.github.io", "b.a.github.io", "a.io",
     # wildcard: the extra label is part of the suffix; the bare parent matches no rule
